@@ -151,6 +151,14 @@ impl<'a> TmCanon<'a> {
                 };
                 format!("(app (proj (var h) {}) {})", n, self.tm(a))
             }
+            Tm::HostFn(h) => {
+                let n = match h {
+                    Host::Log => "log",
+                    Host::Tick => "tick",
+                    Host::Fail => "fail",
+                };
+                format!("(proj (var h) {})", n)
+            }
             Tm::Ann(e, _) => self.tm(e),
         }
     }
